@@ -7,42 +7,42 @@ package lexer
 //@ ghost tokOK(t Int, v Str) Bool = (t == const("lexer.StringLiteralToken") || t == const("lexer.JSONLiteralToken") || t == const("lexer.QuotedIdentifierToken") ==> len(v) >= 2) && (t == const("lexer.ObjectWildcardToken") ==> len(v) >= 1 && v[0] == 46) && aligned(v) && (t == const("lexer.QuotedIdentifierToken") ==> v[0] == 34 && v[len(v) - 1] == 34) && (t == const("lexer.StringLiteralToken") ==> v[0] == 39 && v[len(v) - 1] == 39) && (t == const("lexer.JSONLiteralToken") ==> v[0] == 96 && v[len(v) - 1] == 96)
 
 //@ func Lexer.Next
-//@   tags C04 C16 C09 C03
+//@   tags C04 C16 C09 C03 C10
 //@   assigns l.position, *t
 //@   requires pos: 0 <= l.position && l.position <= len(l.expression)
 //@   requires[C11] bnd: aligned(l.expression) && boundAt(l.expression, l.position)
 //@   ensures pos: 0 <= l.position && l.position <= len(l.expression) && l.expression == old(l.expression)
-//@   ensures[C11] bnd: result == nil ==> boundAt(l.expression, l.position)
-//@   ensures[C09] progress: result == nil && t.Type != const("lexer.EndToken") ==> l.position > old(l.position)
-//@   ensures[C09] monotone: result == nil ==> l.position >= old(l.position)
-//@   ensures[C03 C16] delimiters: result == nil ==> tokOK(t.Type, t.Value)
+//@   ensures[C11 C04 C09 C10] bnd: result == nil ==> boundAt(l.expression, l.position)
+//@   ensures[C09 C04 C10] progress: result == nil && t.Type != const("lexer.EndToken") ==> l.position > old(l.position)
+//@   ensures[C09 C04 C10] monotone: result == nil ==> l.position >= old(l.position)
+//@   ensures[C03 C16 C04 C09 C10] delimiters: result == nil ==> tokOK(t.Type, t.Value)
 
 // decodeRune: end of input and undecodable bytes are errors; everything else is a rune of 1..4 bytes.
 // A validly encoded U+FFFD (three bytes) is an ordinary rune (C16).
 //@ func Lexer.decodeRune
-//@   tags C03 C04 C16 C09
+//@   tags C03 C04 C16 C09 C11
 //@   requires pos: 0 <= pos && pos <= len(l.expression)
 //@   ensures decoded: decodePost(l.expression[pos:len(l.expression)], result0, result1)
-//@   ensures[C03] eof: pos == len(l.expression) ==> result2 != nil
-//@   ensures[C16 C04] valid: pos < len(l.expression) && !(result0 == 65533 && result1 == 1) ==> result2 == nil
-//@   ensures[C04] invalid: result0 == 65533 && result1 == 1 ==> result2 != nil
+//@   ensures[C03 C11 C16] eof: pos == len(l.expression) ==> result2 != nil
+//@   ensures[C16 C04 C03 C11] valid: pos < len(l.expression) && !(result0 == 65533 && result1 == 1) ==> result2 == nil
+//@   ensures[C04 C03 C11 C16] invalid: result0 == 65533 && result1 == 1 ==> result2 != nil
 //@   ensures size: result2 == nil ==> 1 <= result1 && result1 <= 4 && pos + result1 <= len(l.expression)
-//@   ensures[C11] bnd: aligned(l.expression) && boundAt(l.expression, pos) && result2 == nil ==> boundAt(l.expression, pos + result1)
-//@   ensures[C11] ascii: result2 == nil && result0 < 128 ==> result1 == 1 && l.expression[pos] == result0
+//@   ensures[C11 C03 C16] bnd: aligned(l.expression) && boundAt(l.expression, pos) && result2 == nil ==> boundAt(l.expression, pos + result1)
+//@   ensures[C11 C03 C16] ascii: result2 == nil && result0 < 128 ==> result1 == 1 && l.expression[pos] == result0
 
 //@ func Lexer.quotedIdentifier
 //@   tags C16 C04 C09 C03
 //@   assigns l.position, *t
 //@   requires 0 <= start && start < next && next <= len(l.expression)
 //@   requires[C11] bnd: aligned(l.expression) && boundAt(l.expression, start) && boundAt(l.expression, next)
-//@   ensures[C11] bnd: result == nil ==> boundAt(l.expression, l.position) && aligned(t.Value)
+//@   ensures[C11 C04 C16] bnd: result == nil ==> boundAt(l.expression, l.position) && aligned(t.Value)
 //@   ensures result == nil ==> t.Type == const("lexer.QuotedIdentifierToken") && same(t.Value, l.expression[start:l.position]) && l.position > next && l.position <= len(l.expression) && l.expression[l.position - 1] == '"'
 //@   ensures l.expression == old(l.expression) && (result != nil ==> l.position == old(l.position))
 //@   requires[C04 C16] first: ridx(l.expression, lo(l.expression) + next) == ridx(l.expression, lo(l.expression) + start) + 1
 //@   ensures[C04 C16] nocontrol: result == nil ==> (forall j Int :: {unit(l.expression, j)} ridx(l.expression, lo(l.expression) + start) < j && j < ridx(l.expression, lo(l.expression) + l.position) ==> unit(l.expression, j) >= 32)
 //@   loop 1
 //@     invariant[C04 C16] nocontrol: forall j Int :: {unit(l.expression, j)} ridx(l.expression, lo(l.expression) + start) < j && j < ridx(l.expression, lo(l.expression) + next) ==> unit(l.expression, j) >= 32
-//@     invariant[C11] bnd: boundAt(l.expression, next)
+//@     invariant[C11 C04 C16] bnd: boundAt(l.expression, next)
 //@     invariant start < next && next <= len(l.expression) && next >= next0 && l.position == old(l.position) && l.expression == old(l.expression)
 //@     decreases len(l.expression) - next
 //@     bound len(l.expression)
@@ -52,11 +52,11 @@ package lexer
 //@   assigns l.position, *t
 //@   requires 0 <= start && start < next && next <= len(l.expression)
 //@   requires[C11] bnd: aligned(l.expression) && boundAt(l.expression, start) && boundAt(l.expression, next)
-//@   ensures[C11] bnd: result == nil ==> boundAt(l.expression, l.position) && aligned(t.Value)
+//@   ensures[C11 C04 C16] bnd: result == nil ==> boundAt(l.expression, l.position) && aligned(t.Value)
 //@   ensures result == nil ==> t.Type == const("lexer.StringLiteralToken") && same(t.Value, l.expression[start:l.position]) && l.position > next && l.position <= len(l.expression) && l.expression[l.position - 1] == '\''
 //@   ensures l.expression == old(l.expression) && (result != nil ==> l.position == old(l.position))
 //@   loop 1
-//@     invariant[C11] bnd: boundAt(l.expression, next)
+//@     invariant[C11 C04 C16] bnd: boundAt(l.expression, next)
 //@     invariant start < next && next <= len(l.expression) && next >= next0 && l.position == old(l.position) && l.expression == old(l.expression)
 //@     decreases len(l.expression) - next
 //@     bound len(l.expression)
@@ -66,11 +66,11 @@ package lexer
 //@   assigns l.position, *t
 //@   requires 0 <= start && start < next && next <= len(l.expression)
 //@   requires[C11] bnd: aligned(l.expression) && boundAt(l.expression, start) && boundAt(l.expression, next)
-//@   ensures[C11] bnd: result == nil ==> boundAt(l.expression, l.position) && aligned(t.Value)
+//@   ensures[C11 C04 C16] bnd: result == nil ==> boundAt(l.expression, l.position) && aligned(t.Value)
 //@   ensures result == nil ==> t.Type == const("lexer.JSONLiteralToken") && same(t.Value, l.expression[start:l.position]) && l.position > next && l.position <= len(l.expression) && l.expression[l.position - 1] == '`'
 //@   ensures l.expression == old(l.expression) && (result != nil ==> l.position == old(l.position))
 //@   loop 1
-//@     invariant[C11] bnd: boundAt(l.expression, next)
+//@     invariant[C11 C04 C16] bnd: boundAt(l.expression, next)
 //@     invariant start < next && next <= len(l.expression) && next >= next0 && l.position == old(l.position) && l.expression == old(l.expression)
 //@     decreases len(l.expression) - next
 //@     bound len(l.expression)
@@ -80,11 +80,11 @@ package lexer
 //@   assigns l.position, *t
 //@   requires 0 <= start && start < next && next <= len(l.expression)
 //@   requires[C11] bnd: aligned(l.expression) && boundAt(l.expression, start) && boundAt(l.expression, next)
-//@   ensures[C11] bnd: result == nil ==> boundAt(l.expression, l.position) && aligned(t.Value)
+//@   ensures[C11 C04] bnd: result == nil ==> boundAt(l.expression, l.position) && aligned(t.Value)
 //@   ensures result == nil && t.Type == const("lexer.IntegerLiteralToken") && same(t.Value, l.expression[start:l.position]) && l.position >= next && l.position <= len(l.expression)
 //@   ensures l.expression == old(l.expression)
 //@   loop 1
-//@     invariant[C11] bnd: boundAt(l.expression, next)
+//@     invariant[C11 C04] bnd: boundAt(l.expression, next)
 //@     invariant start < next && next <= len(l.expression) && next >= next0 && l.position == old(l.position) && l.expression == old(l.expression)
 //@     decreases len(l.expression) - next
 //@     bound len(l.expression)
@@ -94,12 +94,12 @@ package lexer
 //@   assigns l.position, *t
 //@   requires 0 <= start && start < next && next <= len(l.expression)
 //@   requires[C11] bnd: aligned(l.expression) && boundAt(l.expression, start) && boundAt(l.expression, next)
-//@   ensures[C11] bnd: result == nil ==> boundAt(l.expression, l.position) && aligned(t.Value)
+//@   ensures[C11 C19] bnd: result == nil ==> boundAt(l.expression, l.position) && aligned(t.Value)
 //@   ensures result == nil && (t.Type == const("lexer.UnquotedIdentifierToken") || t.Type == const("lexer.InToken") || t.Type == const("lexer.LetToken")) && same(t.Value, l.expression[start:l.position]) && l.position >= next && l.position <= len(l.expression)
 //@   ensures[C04 C19] keywords: (t.Type == const("lexer.InToken") <==> t.Value == "in") && (t.Type == const("lexer.LetToken") <==> t.Value == "let")
 //@   ensures l.expression == old(l.expression)
 //@   loop 1
-//@     invariant[C11] bnd: boundAt(l.expression, next)
+//@     invariant[C11 C19] bnd: boundAt(l.expression, next)
 //@     invariant start < next && next <= len(l.expression) && next >= next0 && l.position == old(l.position) && l.expression == old(l.expression)
 //@     decreases len(l.expression) - next
 //@     bound len(l.expression)
@@ -109,12 +109,12 @@ package lexer
 //@   assigns l.position, *t
 //@   requires 0 <= start && start < next && next <= len(l.expression)
 //@   requires[C11] bnd: aligned(l.expression) && boundAt(l.expression, start) && boundAt(l.expression, next)
-//@   ensures[C11] bnd: result == nil ==> boundAt(l.expression, l.position) && aligned(t.Value)
+//@   ensures[C11 C04 C19] bnd: result == nil ==> boundAt(l.expression, l.position) && aligned(t.Value)
 //@   ensures result == nil && (t.Type == const("lexer.RootToken") || t.Type == const("lexer.VariableToken")) && same(t.Value, l.expression[start:l.position]) && l.position >= next && l.position <= len(l.expression)
-//@   ensures[C19] root: t.Type == const("lexer.RootToken") <==> l.position == next
+//@   ensures[C19 C04] root: t.Type == const("lexer.RootToken") <==> l.position == next
 //@   ensures l.expression == old(l.expression)
 //@   loop 1
-//@     invariant[C11] bnd: boundAt(l.expression, next)
+//@     invariant[C11 C04 C19] bnd: boundAt(l.expression, next)
 //@     invariant start < next && next <= len(l.expression) && next > next0 && l.position == old(l.position) && l.expression == old(l.expression)
 //@     decreases len(l.expression) - next
 //@     bound len(l.expression)
@@ -125,8 +125,8 @@ package lexer
 //@ func Lexer.Next
 //@   loop 1
 //@     invariant 0 <= l.position && l.position < len(l.expression) && l.position >= old(l.position) && l.expression == old(l.expression)
-//@     invariant[C11] bnd: boundAt(l.expression, l.position)
-//@     invariant[C04] whitespace: forall k Int :: {byteOf(l.expression, k)} old(l.position) <= k && k < l.position ==> wsByte(byteOf(l.expression, k))
+//@     invariant[C11 C04 C09 C10] bnd: boundAt(l.expression, l.position)
+//@     invariant[C04 C09 C10] whitespace: forall k Int :: {byteOf(l.expression, k)} old(l.position) <= k && k < l.position ==> wsByte(byteOf(l.expression, k))
 //@     decreases len(l.expression) - l.position
 //@     bound len(l.expression)
 
